@@ -282,7 +282,13 @@ pub fn c05(r: &mut Rng, t: u32, n: usize) -> Vec<Value> {
     while v.len() < n {
         maybe_set(r, t, &mut v, 4);
         let op = if r.below(3) == 0 { "checked_round" } else { "round" };
-        match r.below(8) {
+        match r.below(9) {
+            8 => {
+                // shift back at the i128 boundary: integral value within one rounding unit of MAX, negative n
+                let k = 1 + r.below(6) as u32;
+                let c = neg1!(r, MAXC - (r.below(p10(k) as u64) as i128));
+                v.push(json!({"ev": "un", "t": t, "op": op, "x": dj(c, 0), "n": -(k as i64)}));
+            }
             0 | 1 => {
                 // tie digits: coefficient ending in 5 0..0 at the cut
                 let f = 1 + r.below(18) as u32;
